@@ -656,6 +656,8 @@ class Array(metaclass=MetaArray):
         if hasattr(info, "offsets"):
             # the items may have moved: refresh what this handle cached
             self._offsets = info.offsets
+        if self.__class__._size is None:
+            self._size = info.size  # as written in the size header
 
     def _get_offset(self, index):
         if isinstance(index, (int, np.integer)):
